@@ -181,57 +181,80 @@ HENV = dict(os.environ, ASAN_OPTIONS="detect_leaks=0:abort_on_error=0:exitcode=9
             UBSAN_OPTIONS="print_stacktrace=1:halt_on_error=1:exitcode=98", TZ="UTC", LC_ALL="C")
 
 
+def _harness_once(exe, ops, workdir, tag, extra_args, tmo):
+    opf = os.path.join(workdir, "%s.ops.%d" % (tag, os.getpid()))
+    with open(opf, "w") as f:
+        f.write("\n".join(ops) + "\n")
+    timed_out = False
+    try:
+        p = subprocess.run([exe, opf] + list(extra_args), stdout=subprocess.PIPE, stderr=subprocess.PIPE,
+                           text=True, env=HENV, errors="replace", timeout=tmo)
+        out, err, rc = p.stdout, p.stderr, p.returncode
+    except subprocess.TimeoutExpired as te:
+        out = te.stdout if isinstance(te.stdout, str) else (te.stdout or b"").decode("utf-8", "replace")
+        err, rc, timed_out = "timeout", -14, True
+    os.remove(opf)
+    got = out.split("\n")
+    if got and got[-1] == "":
+        got.pop()
+    return got, err, rc, timed_out
+
+
 def run_harness(exe, ops, workdir, tag, extra_args=()):
     """Runs the harness over the op lines.  The harness prints exactly one output line
     per op line (flushed).  If it dies (sanitizer abort, signal) on line k, the output
     of line k becomes `crash:<kind>` and the harness is restarted on the remaining
-    lines.  Returns list of output lines (len == len(ops))."""
+    lines.  Returns list of output lines (len == len(ops)).
+
+    Wall-clock limit: a batch gets max(120 s, sec_per_op * lines); when the limit strikes, the line the
+    harness was working on is re-run ALONE with a generous limit before anything is concluded: only a line
+    that does not finish on its own is reported as a hang (`crash:timeout`); a batch that was merely slow
+    (machine under load, expensive ops) is continued with a doubled allowance.  (A slow batch used to be
+    reported as `crash:signal:14` on its next line — a false alarm of the runner found by the C13 review.)"""
     outs = []
     start = 0
     crashes = 0
+    scale = 1.0
+    per_op = float(os.environ.get("VERIF_SEC_PER_OP", "0.05"))
+    single = float(os.environ.get("VERIF_SINGLE_OP_TIMEOUT", "300"))
     while start < len(ops):
-        opf = os.path.join(workdir, "%s.ops.%d" % (tag, start))
-        with open(opf, "w") as f:
-            f.write("\n".join(ops[start:]) + "\n")
-        # generic guard against a hanging implementation: generous wall-clock limit per batch; a
-        # timeout is treated like a crash on the first line that produced no output
-        tmo = float(os.environ.get("VERIF_HARNESS_TIMEOUT", "0")) or max(120.0, 0.02 * (len(ops) - start))
-        try:
-            p = subprocess.run([exe, opf] + list(extra_args), stdout=subprocess.PIPE, stderr=subprocess.PIPE,
-                               text=True, env=HENV, errors="replace", timeout=tmo)
-        except subprocess.TimeoutExpired as te:
-            class _P:
-                pass
-            p = _P()
-            p.stdout = te.stdout if isinstance(te.stdout, str) else (te.stdout or b"").decode("utf-8", "replace")
-            p.stderr = "timeout"
-            p.returncode = -14
-        got = p.stdout.split("\n")
-        if got and got[-1] == "":
-            got.pop()
-        os.remove(opf)
-        if p.returncode == 0 and len(got) == len(ops) - start:
+        tmo = float(os.environ.get("VERIF_HARNESS_TIMEOUT", "0")) or scale * max(120.0, per_op * (len(ops) - start))
+        got, err, rc, timed_out = _harness_once(exe, ops[start:], workdir, tag, extra_args, tmo)
+        if rc == 0 and len(got) == len(ops) - start:
             outs.extend(got)
             break
         # died on line start+len(got) (or printed a partial line)
         k = len(got)
-        if p.returncode == 0:
+        if rc == 0:
             raise RuntimeError("harness %s printed %d lines for %d ops" % (exe, len(got), len(ops) - start))
         if k > len(ops) - start - 1:
             k = len(ops) - start - 1
             got = got[:k]
-        kind = "signal"
-        err = p.stderr
-        m = re.search(r"ERROR: AddressSanitizer: ([a-zA-Z0-9_-]+)", err)
-        if m:
-            kind = "asan:" + m.group(1)
-        elif "runtime error:" in err:
-            m = re.search(r"runtime error: ([^\n]{0,80})", err)
-            kind = "ubsan:" + re.sub(r"[^a-zA-Z0-9]+", "_", m.group(1))[:60]
-        elif p.returncode < 0:
-            kind = "signal:%d" % (-p.returncode)
-        else:
-            kind = "exit:%d" % p.returncode
+        if timed_out:
+            g1, e1, rc1, to1 = _harness_once(exe, [ops[start + k]], workdir, tag + "-single", extra_args, single)
+            if rc1 == 0 and len(g1) == 1:
+                # the line is fine on its own: the batch was slow, not hanging
+                outs.extend(got)
+                outs.append(g1[0])
+                start += k + 1
+                scale *= 2.0
+                continue
+            if to1:
+                kind = "timeout"
+            else:
+                err, rc = e1, rc1
+        if not (timed_out and rc == -14):
+            kind = "signal"
+            m = re.search(r"ERROR: AddressSanitizer: ([a-zA-Z0-9_-]+)", err)
+            if m:
+                kind = "asan:" + m.group(1)
+            elif "runtime error:" in err:
+                m = re.search(r"runtime error: ([^\n]{0,80})", err)
+                kind = "ubsan:" + re.sub(r"[^a-zA-Z0-9]+", "_", m.group(1))[:60]
+            elif rc < 0:
+                kind = "signal:%d" % (-rc)
+            else:
+                kind = "exit:%d" % rc
         outs.extend(got)
         outs.append("crash:" + kind)
         crashes += 1
